@@ -90,6 +90,29 @@ def check(rep, tier, seed):
             dis.append((C.codec_line(c), a, m))
         else:
             cls["both ok" if a.startswith("ok ") else "both err"] += 1
+    # "a fixed-size array is produced only from exactly that many elements": sequences of m elements in BOTH size forms
+    # (the unknown-length form is what other writers produce) read as arrays of every small length n
+    acs = []
+    for e in (G.P("u16"), G.P("str"), ("opt", G.P("u8")), ("tup", [G.P("i8")])):
+        for m in (0, 1, 2, 3, 4, 5, 8):
+            items = [G.gen_value(rng, e, None, 0.4) for _ in range(m)]
+            val = "(0" + "".join(" " + x for x in items) + ")"
+            for form in ("enc", "encu"):
+                acs.append((R.mk(None, ("seq", "vec", 0, e), val, "-", form), e, m))
+    aenc = C._run_codec_side(model, [c for c, _, _ in acs], [C.codec_line(c) for c, _, _ in acs], C.workdir("C06a"), "aenc", 8, 3000)
+    adec = []
+    for (c, e, m), a in zip(acs, aenc):
+        if a.startswith("ok "):
+            hx = a.split(" ")[1]
+            for n in [x for x in G.ARRAY_LENS if x <= 9]:
+                adec.append({"env": "-", "cmd": "dec", "ty": G.show_ty(("seq", "arr", n, e)), "hex": ("" if hx == "-" else hx) + "0709", "_m": m, "_n": n})
+    aimpl, amod = C.run_codec(harness, model, adec, C.workdir("C06a"), "adec")
+    for c, a, m in zip(adec, aimpl, amod):
+        if a.startswith("ok ") and a != m:
+            bad.append((c, a, m, f"an array of {c['_n']} elements was produced from a sequence of {c['_m']}"))
+        elif a != m:
+            dis.append((C.codec_line(c), a, m))
+    rep.coverage["arrays_from_sequences_of_other_lengths"] = len(adec)
     # evolved-record bytes read by a tuple of the record's initial fields (the oldest reader there is)
     tcs = R.record_as_tuple_cases(rng, 1200 if tier == "quick" else 30000)
     timpl, tmod = C.run_codec(harness, model, tcs, C.workdir("C06t"), "rtup")
